@@ -34,6 +34,11 @@ def eval_term(t, ev, depth=0):
     if k == "bin":
         a = eval_term(t[2], ev, depth + 1)
         b = eval_term(t[3], ev, depth + 1)
+        if isinstance(a, int) and isinstance(b, int) and t[1] in _ARITH:
+            try:
+                return _ARITH[t[1]](a, b)
+            except (ValueError, OverflowError, ZeroDivisionError):
+                return None
         return _cmp(t[1], a, b)
     if k == "call":
         p = t[1] or ""
@@ -49,6 +54,14 @@ def eval_term(t, ev, depth=0):
         if vals and all(isinstance(v, int) for v in vals) and len(set(vals)) == 1:
             return vals[0]
     return None
+
+
+_ARITH = {
+    "BitOr": lambda a, b: a | b, "BitAnd": lambda a, b: a & b, "BitXor": lambda a, b: a ^ b,
+    "Add": lambda a, b: a + b, "Sub": lambda a, b: a - b, "Mul": lambda a, b: a * b,
+    "Shl": lambda a, b: a << b if 0 <= b < 128 else None, "Shr": lambda a, b: a >> b if 0 <= b < 128 else None,
+    "AddWithOverflow": lambda a, b: a + b, "SubWithOverflow": lambda a, b: a - b,
+}
 
 
 def _rng(x):
@@ -153,3 +166,32 @@ def has_call(tg, suffix):
 
 def has_agg(tg, adt, variant):
     return ("agg", adt, variant) in tg
+
+
+def filter_verdict(facts, body, prov, ev):
+    """When `body` draws its items through Iterator::filter(.., closure): the closure's verdict for items of the cell `ev`
+    (evaluated in the closure body).  True: kept, False: dropped by the filter, None: no filter / not decided."""
+    verdicts = []
+    for blk in body.calls():
+        cp = callee_path(blk.term) or ""
+        if not (cp.endswith("Iterator::filter") or cp.endswith("::filter")):
+            continue
+        if len(blk.term["args"]) < 2:
+            continue
+        ct = prov.operand(blk.term["args"][1])
+        cl = [s for s in flow.subterms(ct) if s[0] == "agg" and s[1] == "closure"]
+        if not cl:
+            return None
+        cb = facts.body(cl[0][2])
+        if cb is None:
+            return None
+        cprov = flow.Prov(cb)
+        blocks, _ = feasible(cb, cprov, ev)
+        rprov = flow.Prov(cb, only_blocks=blocks)
+        v = eval_term(rprov.local(0), lambda t: None)
+        if v not in (0, 1):
+            return None
+        verdicts.append(bool(v))
+    if not verdicts:
+        return None
+    return all(verdicts)
